@@ -71,6 +71,10 @@ SPECIALS = [
     ".macro m(a) { .byte 1/a, 1%a, 1<<a }", ".if 0 { .byte 1 << 64 }", ".macro m() { bne 0 }", ".macro m() { bne + \n .loop 200 { nop } }",
     "nop\n" * 3000, "a: {" * 200 + "}" * 200, "((((" * 500, "lda #" + "(" * 300 + "1" + ")" * 300, "lda #" + "1+" * 3000 + "1", "lda #" + "-" * 50 + "1", "lda #" + "!" * 50 + "1",
     "/*" * 2000, "{ " * 3000, ".if 1 {" * 500, "lda #" + "(" * 5000 + "1", ".byte " + "(" * 20000, "m(" * 5000, "a: {" * 5000,
+    # a segment that is defined later and covers what the bank holds so far on both sides
+    '.define segment { name = "inner" start = $3000 }\n.define segment { name = "outer" start = $2000 }\n.segment "inner" { nop }\n.segment "outer" { nop\n* = $4000\nrts }',
+    '.define segment { name = "a" start = $1010 }\n.define segment { name = "b" start = $1000 }\n.segment "a" { .byte 1 }\n.segment "b" { .byte 2\n* = $1020\n.byte 3 }',
+    '.define bank { name = "k" fill = $ff }\n.define segment { name = "a" start = $10 bank = "k" }\n.define segment { name = "b" start = $8 bank = "k" }\n.segment "a" { nop }\n.segment "b" { .text "0123456789abcdef0123" }',
     # configuration maps inside configuration maps
     '.define segment { name = "a" start = 1 ' + "a = { " * 20000 + " b = 1 " + "}" * 20000 + " }", ".define segment { " + "a = { " * 5000,
     '.define bank { name = "k" ' + "x = { y = 1 " * 3000 + "}" * 3000 + " }\nnop", ".define segment { a = { b = { c = 1 } } }\nnop",
